@@ -4,7 +4,7 @@ from props import common, generic, tree_common as tc
 
 def run(rep):
     return generic.run_generic(
-        rep, [(tc.GT, 'new group'), (tc.GT, 'extend flag')] + tc.MATCHER_FUNCS,
+        rep, [(tc.GT, 'new group'), (tc.GT, 'extend flag')] + tc.MATCHER_FUNCS + tc.JOINER_FUNCS[:1],
         structural=[tc.pass_order, tc.grouping_frame, tc.identity_side_conditions],
         assumptions=['group_tokens(cls, open_idx, close_idx) creates ONE group that owns exactly tokens[open_idx..close_idx] '
                      '(proved): its first child is the opener and its last child the closer whenever the driver passes '
